@@ -53,3 +53,13 @@ Print Assumptions C18_ranges_wf.
 Theorem C18_merge_ranges_wf : forall m1 m2, mm_all m1 -> mm_all m2 -> mm_all (merge_mm m1 m2).
 Proof. exact merge_mm_all. Qed.
 Print Assumptions C18_merge_ranges_wf.
+
+(* ---- kernel ties (DESIGN.md 10.7).  The Go functions the theorems above are about are translated
+   from the current source on every run (Generated/Kernels.v); each tie states that the translated
+   function equals the model definition used above, on the whole range of the Go types
+   (Generated/KernelTie.v; `True` for a kernel the translator reports as not translated). ---- *)
+From BS Require Import Generated.KernelTie Proofs.KTie_update_mm.
+
+Theorem C18_kernel_tie_update_mm : tie_update_mm.
+Proof. exact k_update_mm_tie. Qed.
+Print Assumptions C18_kernel_tie_update_mm.
